@@ -95,7 +95,7 @@ class C09(Property):
 
     def gen(self, cs, ctx):
         sub = ChoiceStream(cs.d[96:])
-        k = cs.weighted([110, 30, 30, 30, 24, 16])
+        k = cs.weighted([110, 30, 30, 30, 24, 16, 24])
         if k == 0:
             text = invalid.base_program(sub, budget=20)
         elif k == 1:
@@ -111,6 +111,27 @@ class C09(Property):
             g = PyGen(sub, budget=4 + cs.choice(12))
             items = [('line', g.expr('test'))] if cs.bool() else g.stmt(0)
             text = render(items).text.strip('\n') if cs.bool() else render(items).text
+        elif k == 6:
+            # one expression that starts with a soft keyword used as a name: module / interactive mode decide by look-ahead
+            # over the logical line whether it is a keyword, expression mode never asks - the entry points must still agree
+            from ..gen.pygen import PyGen, SOFT, tk
+            from ..gen.layout import render
+            g = PyGen(sub, budget=6 + cs.choice(14))
+            form = cs.choice(5)
+            if form == 0:
+                ts = g.expr('test')
+            elif form == 1:
+                ts = g.expr('or') + [tk(',')] + g.lambda_()
+            elif form == 2:
+                ts = g.expr('or') + [tk('if')] + g.expr('or') + [tk('else')] + g.lambda_()
+            elif form == 3:
+                ts = g.expr('or') + [tk(',')] + g.expr('test') + ([tk(',')] + g.lambda_() if cs.bool() else [])
+            else:
+                ts = g.lambda_()
+            first = next((t for t in ts if t.k != 'M'), None)
+            if first is not None and first.k == 'n' and first.pair is None:
+                first.s = cs.pick(list(SOFT))
+            text = render([('line', ts)]).text.strip('\n')
         else:
             text = invalid.gen_unicode(cs, 20)
         n = len(text.encode('utf-8'))
@@ -203,6 +224,12 @@ class C09(Property):
                 d = ref.first_diff(ex['ok']['body'][0]['value'], ev['ok']['body'])
                 if d:
                     bad('expression_vs_module:tree', diff=trim(d))
+        elif 'ok' in ev and 'err' in ex:
+            # the other direction: a text that is an expression has a tree as an expression statement of module mode
+            # (leading blanks are trimmed in expression mode only, hence the restriction to texts that start in column 0)
+            if not re.match(r'[ \t\x0c]', text.lstrip('\r\n\ufeff')[:1] or 'x') and not re.match(r'[ \t\x0c]', text[:1] or 'x'):
+                ctx.count('expression_accepted_module_rejected')
+                bad('expression_vs_module:module_rejects', module_error=str(strip_hooks(ex))[:200])
         # typed convenience parsers
         typed = case['typed']
         tys = (['Suite', 'Stmt', 'Expr', 'Identifier', 'Constant', 'ModModule', 'ModExpression', 'ModInteractive'] + ['Stmt' + x for x in STMT_KINDS] +
@@ -319,6 +346,14 @@ class C09(Property):
             return 'C09-F1'
         if 'C09-F2' in ids and sig.endswith(':error_offset:empty_input_eof') and d.get('got') == 0:
             return 'C09-F2'
+        if 'C09-F4' in ids and sig == 'expression_vs_module:module_rejects':
+            from .c01 import top_level_colon
+            m = re.match(r'[\s\ufeff]*(match|case)\b(.*)', d.get('text', ''), re.S)
+            if m and top_level_colon(m.group(2)):
+                return 'C09-F4'
+        if 'C09-F5' in ids and sig == 'expression_vs_module:rejected' and "'Newline'" in str(d.get('reply')) and \
+                re.search(r'(?:^|[\r\n])[ \t\x0c]*\\(?:\r\n|\r|\n)[ \t\x0c]*(?:\r|\n|#|$)', d.get('text', '')):
+            return 'C09-F5'
         if 'C09-F3' in ids and d.get('off', 0) > 0 and (sig.endswith(':error_offset') or sig.startswith('shift_parse') and sig.endswith(':error_offset')) and _only_comments(d.get('text', '')):
             return 'C09-F3'
         return None
